@@ -18,8 +18,8 @@ import (
 )
 
 // xlatCfg describes a translation stack: drivers -> address translator; the
-// translator asks a TLB backed by an MMU (auto page allocation) and forwards
-// the translated request to an ideal memory.
+// translator asks a TLB backed by an MMU with auto page allocation (directly or
+// through an MMU cache) and forwards the translated request to an ideal memory.
 type xlatCfg struct {
 	ATReqPerCycle  int              `json:"at_req_per_cycle"`
 	TLBSets        int              `json:"tlb_sets"`
@@ -29,6 +29,10 @@ type xlatCfg struct {
 	TLBReqPerCycle int              `json:"tlb_req_per_cycle"`
 	MMULatency     int              `json:"mmu_latency"`
 	MMUInflight    int              `json:"mmu_inflight"`
+	MMUCacheInPath bool             `json:"mmu_cache_in_path"` // TLB -> MMU cache -> MMU; otherwise the MMU cache is idle
+	MCBlocks       int              `json:"mmu_cache_blocks"`
+	MCLevels       int              `json:"mmu_cache_levels"`
+	MCLatency      int              `json:"mmu_cache_latency_per_level"`
 	MemLatency     int              `json:"mem_latency"`
 	PortBuf        int              `json:"port_buf"`
 	Tracing        bool             `json:"tracing"`
@@ -42,6 +46,7 @@ func randomXlatCfg(rng *rand.Rand, nreq int) *xlatCfg {
 		ATReqPerCycle: 1 + rng.Intn(4),
 		TLBSets:       pickInt(rng, 1, 2, 4), TLBWays: 1 + rng.Intn(4), TLBMSHR: 1 + rng.Intn(4), TLBLatency: 1 + rng.Intn(5), TLBReqPerCycle: 1 + rng.Intn(4),
 		MMULatency: pickInt(rng, 0, 1, 5, 20, 60), MMUInflight: 1 + rng.Intn(8),
+		MMUCacheInPath: rng.Intn(2) == 0, MCBlocks: 1 + rng.Intn(4), MCLevels: 2 + rng.Intn(4), MCLatency: pickInt(rng, 1, 10, 100),
 		MemLatency: 1 + rng.Intn(20), PortBuf: pickInt(rng, 1, 2, 4, 8), Tracing: rng.Intn(2) == 0,
 	}
 	nd := 1 + rng.Intn(2)
@@ -59,7 +64,7 @@ func randomXlatCfg(rng *rand.Rand, nreq int) *xlatCfg {
 // stackCfg is the stand-in the shared case logic uses for naming.
 func (x *xlatCfg) stackCfg() sim.StackCfg {
 	return sim.StackCfg{Mem: sim.MemCfg{Kind: "ideal", Count: 1}, Tracing: x.Tracing, WithCtrl: true, PortBuf: x.PortBuf,
-		Levels: []sim.LevelCfg{{Kind: "at"}, {Kind: "tlb"}, {Kind: "mmu"}, {Kind: "mmucache(idle)"}}}
+		Levels: []sim.LevelCfg{{Kind: "at"}, {Kind: "tlb"}, {Kind: "mmucache"}, {Kind: "mmu"}}}
 }
 
 func ports(reg modeling.Registrar, comp messaging.Component, buf int, names ...string) {
@@ -88,14 +93,29 @@ func buildXlat(x *xlatCfg, dir string) *sim.Stack {
 	usp.Latency = x.MMULatency
 	usp.MaxRequestsInFlight = x.MMUInflight
 	usp.AutoPageAllocation = true
-	mmuc := mmu.MakeBuilder().WithRegistrar(reg).WithSpec(usp).Build("L2mmu")
+	mmuc := mmu.MakeBuilder().WithRegistrar(reg).WithSpec(usp).Build("L3mmu")
 	ports(reg, mmuc, pb, "Top", "Control")
+
+	// the TLB's misses go to the MMU directly, or through the MMU cache
+	tlbBottom := messaging.RemotePort("L1tlb.Bottom")
+	csp := mmuCache.DefaultSpec()
+	csp.NumBlocks, csp.NumLevels, csp.LatencyPerLevel = x.MCBlocks, x.MCLevels, uint64(x.MCLatency)
+	mcc := mmuCache.MakeBuilder().WithRegistrar(reg).WithSpec(csp).
+		WithResources(mmuCache.Resources{LowModulePort: mmuc.GetPortByName("Top").AsRemote(), UpModulePort: tlbBottom}).Build("L2mmucache")
+	ports(reg, mcc, pb, "Top", "Bottom", "Control")
+	walker := mmuc.GetPortByName("Top").AsRemote()
+	if x.MMUCacheInPath {
+		walker = mcc.GetPortByName("Top").AsRemote()
+	}
 
 	tsp := tlb.DefaultSpec()
 	tsp.NumSets, tsp.NumWays, tsp.MSHRSize, tsp.Latency, tsp.NumReqPerCycle = x.TLBSets, x.TLBWays, x.TLBMSHR, x.TLBLatency, x.TLBReqPerCycle
 	tlbc := tlb.MakeBuilder().WithRegistrar(reg).WithSpec(tsp).
-		WithResources(tlb.Resources{TranslationProviderMapper: &mem.SinglePortMapper{Port: mmuc.GetPortByName("Top").AsRemote()}}).Build("L1tlb")
+		WithResources(tlb.Resources{TranslationProviderMapper: &mem.SinglePortMapper{Port: walker}}).Build("L1tlb")
 	ports(reg, tlbc, pb, "Top", "Bottom", "Control")
+	if tlbc.GetPortByName("Bottom").AsRemote() != tlbBottom {
+		panic("unexpected TLB port name " + string(tlbc.GetPortByName("Bottom").AsRemote()))
+	}
 
 	asp := addresstranslator.DefaultSpec()
 	asp.NumReqPerCycle = x.ATReqPerCycle
@@ -104,13 +124,8 @@ func buildXlat(x *xlatCfg, dir string) *sim.Stack {
 		TranslationProviderMapper: &mem.SinglePortMapper{Port: tlbc.GetPortByName("Top").AsRemote()},
 	}).Build("L0at")
 	ports(reg, atc, pb, "Top", "Bottom", "Translation", "Control")
-	// an MMU cache that carries no traffic (its data path answers with the wrong RspTo at this commit, so it cannot sit between TLB and MMU);
-	// it takes part in the control history only
-	csp := mmuCache.DefaultSpec()
-	mcc := mmuCache.MakeBuilder().WithRegistrar(reg).WithSpec(csp).
-		WithResources(mmuCache.Resources{LowModulePort: mmuc.GetPortByName("Top").AsRemote(), UpModulePort: tlbc.GetPortByName("Bottom").AsRemote()}).Build("L3mmucache")
-	ports(reg, mcc, pb, "Top", "Bottom", "Control")
-	s.Levels = []messaging.Component{atc, tlbc, mmuc, mcc}
+	// top-down order of the translation path; an MMU cache outside the path is idle and only takes part in the control history
+	s.Levels = []messaging.Component{atc, tlbc, mcc, mmuc}
 
 	for i, ds := range x.Drivers {
 		ds.Dsts = []string{string(atc.GetPortByName("Top").AsRemote())}
@@ -131,10 +146,15 @@ func buildXlat(x *xlatCfg, dir string) *sim.Stack {
 	}
 	conn("ConnTop", top...)
 	conn("ConnXlat", atc.GetPortByName("Translation"), tlbc.GetPortByName("Top"))
-	conn("ConnWalk", tlbc.GetPortByName("Bottom"), mmuc.GetPortByName("Top"))
+	if x.MMUCacheInPath {
+		conn("ConnWalk", tlbc.GetPortByName("Bottom"), mcc.GetPortByName("Top"))
+		conn("ConnWalk2", mcc.GetPortByName("Bottom"), mmuc.GetPortByName("Top"))
+	} else {
+		conn("ConnWalk", tlbc.GetPortByName("Bottom"), mmuc.GetPortByName("Top"))
+		conn("ConnIdle", mcc.GetPortByName("Top"), mcc.GetPortByName("Bottom"))
+	}
 	conn("ConnMem", atc.GetPortByName("Bottom"), memc.GetPortByName("Top"))
 	s.Ctrl = sim.BuildCtrlDriver(reg, "CtrlDriver", pb)
-	conn("ConnIdle", mcc.GetPortByName("Top"), mcc.GetPortByName("Bottom"))
 	conn("CtrlConn", s.Ctrl.GetPortByName("Ctrl"), atc.GetPortByName("Control"), tlbc.GetPortByName("Control"), mmuc.GetPortByName("Control"), mcc.GetPortByName("Control"), memc.GetPortByName("Control"))
 	return s
 }
